@@ -285,3 +285,89 @@ def install(eng):  # noqa: F811
         return eng_.alloc(st, ArrV((n,), fn, "real"))
 
     eng.builtins["scipy.integrate.cumulative_trapezoid"] = Builtin("scipy.integrate.cumulative_trapezoid", cumtrapz, True)
+
+
+# ------------------------------------------------------------------------- bounded stand-ins (C19)
+
+
+def bounded_c19(tier, seed):
+    """grid of series/orders/grids/bands: projection properties of the detrend, trapezoid over the
+    inclusive in-band grid points (band edges on and off the grid), additivity, nesting, get_rms,
+    DataFrame wrapper, Parseval within 5 %"""
+    import numpy as np
+    import pandas as pd
+    from speckit.dsp import polynomial_detrend, integral_rms, df_detrend
+
+    rng = np.random.default_rng(seed)
+    fails, n = [], 0
+
+    def trap(f, y, lo, hi):
+        m = (f >= lo) & (f <= hi)
+        ff, yy = f[m], y[m]
+        return float(np.sqrt(np.sum((yy[:-1] ** 2 + yy[1:] ** 2) / 2 * np.diff(ff)))) if len(ff) >= 2 else 0.0
+
+    for trial in range(6 if tier == "quick" else 40):
+        N = int(rng.integers(8, 300))
+        x = rng.normal(size=N) + rng.normal() * np.arange(N) ** 2 / N
+        t = np.arange(N, dtype=float)
+        for p in range(0, 6):
+            if N < p + 2:
+                continue
+            n += 1
+            r = polynomial_detrend(x, order=p)
+            sc = max(1.0, np.max(np.abs(x)))
+            for m in range(p + 1):
+                if abs(np.sum((t / N) ** m * r)) > 1e-6 * sc * N:
+                    fails.append({"label": "C19.orthogonal", "input": {"N": N, "order": p, "degree": m}, "detail": "residual not orthogonal to a polynomial of degree <= order"})
+                    break
+            if np.max(np.abs(polynomial_detrend(r, order=p) - r)) > 1e-6 * sc:
+                fails.append({"label": "C19.idempotent", "input": {"N": N, "order": p}, "detail": "detrending twice changes the result"})
+            poly = sum(rng.normal() * (t / N) ** k for k in range(p + 1))
+            if np.max(np.abs(polynomial_detrend(poly, order=p))) > 1e-6 * max(1.0, np.max(np.abs(poly))):
+                fails.append({"label": "C19.annihilates", "input": {"N": N, "order": p}, "detail": "a polynomial of degree <= order is not mapped to zero"})
+        # RMS integration
+        nf = int(rng.integers(5, 200))
+        f = np.cumsum(rng.uniform(0.01, 1.0, nf))
+        asd = rng.uniform(0.0, 3.0, nf)
+        i, j, k = sorted(rng.choice(nf, 3, replace=False))
+        bands = [(f[i], f[k]), (f[i], f[j]), (f[j], f[k]), (f[i] - 1e-3, f[k] + 1e-3), (0.5 * (f[i] + f[i + 1] if i + 1 < nf else f[i]), f[k]), (-1.0, 1e9), (f[0], f[-1])]
+        for lo, hi in bands:
+            n += 1
+            got, want = integral_rms(f, asd, (lo, hi)), trap(f, asd, lo, hi)
+            if abs(got - want) > 1e-9 * max(1.0, want):
+                fails.append({"label": "C19.trapezoid_over_inclusive_band", "input": {"nf": nf, "band": [float(lo), float(hi)], "on_grid": bool(lo in f)}, "detail": f"integral_rms={got!r} trapezoid={want!r}"})
+        a, b, c = integral_rms(f, asd, (f[i], f[j])), integral_rms(f, asd, (f[j], f[k])), integral_rms(f, asd, (f[i], f[k]))
+        n += 1
+        if abs(a * a + b * b - c * c) > 1e-9 * max(1.0, c * c):
+            fails.append({"label": "C19.additive_in_power", "input": {"nf": nf}, "detail": "power not additive over bands that meet at a grid point"})
+        if integral_rms(f, asd, (f[i], f[j])) > integral_rms(f, asd, (f[i], f[k])) + 1e-12:
+            fails.append({"label": "C19.nesting", "input": {"nf": nf}, "detail": "band RMS not monotone under nesting"})
+    # result method and Parseval
+    from speckit import compute_spectrum
+
+    x = rng.normal(size=20000)
+    res = compute_spectrum(x, 10.0, Jdes=200)
+    n += 2
+    if abs(res.get_rms() - integral_rms(res.f, res.asd, None)) > 1e-12:
+        fails.append({"label": "C19.get_rms", "input": {}, "detail": "get_rms differs from integral_rms(f, asd)"})
+    lo, hi = float(res.f[10]), float(res.f[50])
+    if abs(res.get_rms((hi, lo)) - integral_rms(res.f, res.asd, (lo, hi))) > 1e-12:
+        fails.append({"label": "C19.get_rms_band", "input": {}, "detail": "get_rms(band) differs from integral_rms over the sorted band"})
+    if abs(res.get_rms() / np.std(x) - 1) > 0.05:
+        fails.append({"label": "C19.parseval", "input": {}, "detail": f"full-band RMS {res.get_rms():.4f} vs time-domain {np.std(x):.4f}"})
+    df = pd.DataFrame({"a": rng.normal(size=50) + np.arange(50), "b": rng.normal(size=50), "s": ["x"] * 50})
+    out = df_detrend(df, columns=["a"], order=1)
+    n += 1
+    if not np.allclose(out["a_detrended"], polynomial_detrend(df["a"].values, 1)) or not out["b"].equals(df["b"]) or "b_detrended" in out or not df.equals(df.copy()):
+        fails.append({"label": "C19.df_wrapper", "input": {}, "detail": "df_detrend does not detrend exactly the selected numeric columns"})
+    return {"evaluations": n, "bound": "random series (N<300), orders 0..5, random increasing grids (nf<200), 7 bands each incl. edges on grid points", "failures": fails[:5], "n_failures": len(fails)}
+
+
+BOUNDED = {"C19.grid": bounded_c19}
+PROPERTY_INFO = {
+    "C19": {
+        "bounded": ["C19.grid"],
+        "not_decided": ["idempotence / annihilation of polynomials for order >= 1 rest on uniqueness of the least-squares solution (mathematics, M1): bounded only", "Parseval within a few percent: statistical, bounded only"],
+        "trusted": ["np.polyfit/np.polyval least-squares contract", "scipy.integrate.cumulative_trapezoid contract"],
+    }
+}
